@@ -24,6 +24,7 @@ def check(ctx):
     repo = ctx.repo
     from . import generic as _gen
     _gen.language_traps(ctx, _gen.anchor_functions(repo, "C16"), "the property holds for every input, on every call")
+    _gen.total_functions(ctx, ["dataiter.list_of_dicts.ListOfDicts.group_by"])
     I = interp(repo)
     for r, t in (("ORD-4", "lookup dict built over reversed(other): first match wins"),
                  ("SIB-13", "inner/left twins: strip right key names, update left item with a fresh dict"),
